@@ -117,15 +117,20 @@ def greedyLoop (amount : Nat) : List Coin → Nat → GState → Except Err GSta
       let st' := { st with res := res, opt := opt, sel := st.sel ++ [(idx, u)] }
       if opt = amount then .ok st' else greedyLoop amount rest (idx + 1) st'
 
-/-- `sort.Slice(utxos, amount descending)`; ties are in unspecified order in Go, a stable merge
-    sort here (amount-level outputs do not depend on it) -/
-def sortDesc (l : List Coin) : List Coin := l.mergeSort (fun a b => decide (b.amt ≤ a.amt))
+/-- insert into a list sorted by amount, descending (after the coins that are not smaller) -/
+def insertDesc (x : Coin) : List Coin → List Coin
+  | [] => [x]
+  | y :: t => if x.amt > y.amt then x :: y :: t else y :: insertDesc x t
+
+/-- `sort.Slice(utxos, amount descending)`; ties are in unspecified order in Go, a stable insertion
+    sort here (amount-level outputs do not depend on it; structural, so the kernel can evaluate it) -/
+def sortDesc (l : List Coin) : List Coin := l.foldr insertDesc []
 
 structure OptRes where
   sel : List Coin
   sum : Nat
   res : Nat
-  deriving Repr, Inhabited
+  deriving Repr, Inhabited, DecidableEq
 
 /-- `optOutputs(amount, utxos)` -/
 def optOutputs (amount : Nat) (utxos : List Coin) : Except Err OptRes :=
